@@ -37,8 +37,9 @@ def _finish(charts, goal, timeout, what):
     cons = []
     for ch in charts:
         cons += ch.base + ch.defs
+    rt, _, tsecs = _solve(cons, min(timeout, 120))          # vacuity twin: constraints without the negated property
     r, m, secs = _solve(cons + [goal if goal is not None else z3.BoolVal(False)], timeout)
-    out = {"what": what, "W": charts[0].W, "classes": charts[0].ncls, "definitions": len(cons), "secs": round(secs, 2), "state": r}
+    out = {"twin": rt, "twin_secs": round(tsecs, 2), "what": what, "W": charts[0].W, "classes": charts[0].ncls, "definitions": len(cons), "secs": round(secs, 2), "state": r}
     if r == 'unsat':
         out["verdict"] = "PROVED"
     elif r == 'sat':
